@@ -28,6 +28,20 @@ CLAIMED = {
             "str.split()/strip()/lower() results are Python-supplied per input; Pool.starmap returns results in submission order."),
     'C19': ("corpus_eq, gz_files_sorted, threads_independent, imap_any_arrival_order, not_found_listed, sort_total, sorted_unique, walk_order_irrelevant, no_overwrite(_not_found); generated subtitle trees with dangling links x n_threads, corpus and .not_found files compared byte for byte with the driver.",
             "xml.etree, gzip and os.walk(followlinks=True) are trusted (the harness writes real gzip XML from the JSON tree); float time arithmetic exactly at the 5 s boundary only for whole-second times."),
+    'C05': ("conversion_fault_raises (every completion order of the pool jobs), worker_fault_raises / worker_runs_bounded / worker_never_blocks (every interleaving of the worker threads), dict_fault_raises, policy_rejects_iff, storage_need; fault enumeration on the real code: fault kind x position x learner x n_jobs x chunk size, storage byte budget swept over every chunk-size boundary, every call under a deadline in a killable worker.",
+            "partial: which stage detects which fault kind per learner is a table in harness/run_C05.py sampled by the enumeration, not a theorem; wall-clock boundedness is the harness deadline (theorems bound transitions); multiprocessing.Pool re-raises worker exceptions of starmap in the caller; every submitted job eventually completes."),
+    'C08': ("delta_rule_row, whR2R_eq_spec, whB2R_eq_spec, whR2B_eq_spec (each kernel = delta rule on its own row, no other row touched), binary_is_indicator, wh_schedule_independent (every valid OpenMP schedule), wh_driver_eq_spec, single_cue_outcome, wh_table_order; wh.wh in three flavours, numpy and dict_wh vs the Lean whModel, exact values and labels, continuation chains.",
+            "IEEE-754 rounding outside the exact-dyadic domain; xarray broadcasting in the numpy path; OpenMP scheduling under DRF=>SC."),
+    'C12': ("act_eq_sum (matrix paths, multiplicity), act_cues_policy, act_missing (KeyError/ignore table), act_dict_eq_sum, paths_agree, events_independent (multi = single process), step_delta; DataArray (n_jobs 1..6) and dict-of-dicts weights vs the Lean model, exact; step_delta also on dict_ndl + activation() alone.",
+            "numpy fancy indexing/sum and the shared-memory multiprocessing pool are trusted; exact comparison inside the dyadic domain."),
+    'C14': ("onehot_sum, wh_r2b_onehot_eq_rw, wh_b2r_onehot_eq_rw, wh_r2r_onehot_eq_rw and the counter-example for repeated outcomes; wh.wh (all flavours, shuffled one-hot tables with unused dimensions) vs ndl.ndl(alpha=1, betas=(eta,eta), lambda=1) on the same file, implementation vs implementation and both vs the Lean models.",
+            "IEEE-754 rounding outside the exact-dyadic domain."),
+    'C16': ("entries_count(_mixed), entries_late, split_join, pad_strip, stored_is_join, reports_call, raw_ndl/raw_wh, save_load_identity, sep_generated (separator literal regenerated from the source); chains of 1-4 calls of ndl / dict_ndl / wh flavours with save_load at random positions vs the driver.",
+            "partial: netCDF4/HDF5/xarray serialisation cannot be modelled — the netCDF clause is decided only by the differential run (values bit-exact, coords, attrs, continued learning); Python str() of floats/tuples is Python-supplied."),
+    'C17': ("fs_clean (bracket = with TemporaryDirectory: every body below its directory, every exit), exit_preserved, fs_clean_nested, chunk_paths_inside, old_spool_leaks (F7); every learner x path/generator/list x temporary_directory given/defaulted x success and every injected failure incl. storage budgets: directory listings and sha256 of the input before/after.",
+            "partial: that the real bodies only write below their TemporaryDirectory is what the differential run observes (not a theorem about the code); shutil.rmtree and Pool.terminate behave as documented."),
+    'C20': ("band_terminates (+ fuel irrelevance), band_multiset, band_sub, band_cutoff, band_nodup, band_counter, band_size (ordered field), load_save (incl. empty key); populations 0..2000 with the shuffle replaced by a harness-chosen permutation, exact comparison when the step is dyadic, predicates otherwise (plus an exact Fraction re-run), counter files.",
+            "float accumulator vs rationals outside the dyadic stream (predicates only there); parseInt models -?[0-9]+ only."),
     'C13': ("row_depends_only, rename_equivariant, cue_perm, affine, linear_part, lambda_homogeneous, beta2_zero, alpha_zero about rwLearn, transported to the implementations by C01; every law also run as a metamorphic relation between 2-3 runs of the real learners, exact in the dyadic domain.",
             "IEEE-754 rounding outside the exact-dyadic domain (2^-30 relative tolerance there)."),
 }
